@@ -4,8 +4,8 @@
    (reactant-only, product-only, common atoms) as explicit inputs; orders_ok says they are permutations of the sets,
    so every theorem below holds for EVERY iteration order CPython may choose. *)
 From Coq Require Import ZArith List String Bool Permutation.
-From Model Require Import PyBase Graph Morgan Compose RxnSmiles CgrMorgan.
-From Proofs Require Import ComposeProofs RxnComposeProofs RxnSmilesProofs RxnCxProofs RxnEqProofs CgrMorganProofs CgrMorganOrderProofs.
+From Model Require Import PyBase Graph Morgan Compose RxnSmiles CgrMorgan RxnCache.
+From Proofs Require Import ComposeProofs RxnComposeProofs RxnSmilesProofs RxnCxProofs RxnEqProofs RxnCacheProofs CgrMorganProofs CgrMorganOrderProofs.
 Import ListNotations.
 Open Scope Z_scope.
 
@@ -225,6 +225,45 @@ Theorem C15_cgr_atoms_order_example :
     z_cgr_atoms_order (rename_cgr (fun n => 10 - n) c) = Ok [(7, 1); (8, 2); (9, 3)].
 Proof. exact cgr_atoms_order_example. Qed.
 Print Assumptions C15_cgr_atoms_order_example.
+
+(* the tie-break value of the SMILES traversal between neighbours of equal Morgan class, DynamicBond.__int__, is the hash of BOTH
+   orders: equal values mean the same (order or 0, p_order or 0) pair, or a collision of the tuple hash *)
+Theorem C15_dbond_int_separates : forall h a b, dbond_int h a = dbond_int h b ->
+  (oz (db_ord a) = oz (db_ord b) /\ oz (db_pord a) = oz (db_pord b)) \/
+  (h [oz (db_ord a); oz (db_pord a)] = h [oz (db_ord b); oz (db_pord b)] /\ [oz (db_ord a); oz (db_pord a)] <> [oz (db_ord b); oz (db_pord b)]).
+Proof. exact dbond_int_separates. Qed.
+Print Assumptions C15_dbond_int_separates.
+
+(* ---- the reaction-level cache across the in-place standardisation methods (thiele, kekule, clean_isotopes, implicify / explicify) ---- *)
+(* the 'something changed' flag is raised iff SOME molecule reported a change *)
+Theorem C15_flag_any_spec : forall results, flag_any results = true <-> exists r, In r results /\ r = true.
+Proof. exact flag_any_spec. Qed.
+Print Assumptions C15_flag_any_spec.
+
+Theorem C15_flag_count_spec : forall counts, Forall (fun n => 0 <= n) counts -> (flag_count counts = false <-> Forall (fun n => n = 0) counts).
+Proof. exact flag_count_spec. Qed.
+Print Assumptions C15_flag_count_spec.
+
+(* if the value (string, hash, condensed graph) can only change when some molecule reports a change, then after the method the
+   cached_method returns the value of the CURRENT molecules, whatever was cached before *)
+Theorem C15_cache_coherent_flag : forall (V : Type) results (cell : option V) (old new : V),
+  (cell = None \/ cell = Some old) -> ((forall r, In r results -> r = false) -> new = old) ->
+  fst (cached_read (flush_if (flag_any results) cell) new) = new.
+Proof. exact @cache_coherent_flag. Qed.
+Print Assumptions C15_cache_coherent_flag.
+
+Theorem C15_cache_coherent_count : forall (V : Type) counts (cell : option V) (old new : V),
+  Forall (fun n => 0 <= n) counts -> (cell = None \/ cell = Some old) -> (Forall (fun n => n = 0) counts -> new = old) ->
+  fst (cached_read (flush_if (flag_count counts) cell) new) = new.
+Proof. exact @cache_coherent_count. Qed.
+Print Assumptions C15_cache_coherent_count.
+
+Theorem C15_cache_example :
+  flag_any [true; false] = true /\ flag_any [false; false] = false /\ flag_count [0; 2; 0] = true /\
+  fst (cached_read (flush_if (flag_any [true; false]) (Some 1)) 2) = 2 /\
+  fst (cached_read (flush_if (flag_any [false; false]) (Some 1)) 1) = 1.
+Proof. exact cache_example. Qed.
+Print Assumptions C15_cache_example.
 
 (* ---- reaction string ---- *)
 (* any permutation of the molecules inside the roles gives the same string.  ncomp_det l: two molecules of l with the
